@@ -238,6 +238,16 @@ func (x *Exec) parseMsg(f []string) (ParsedMsg, error) {
 		x.declAddrString(str(0))
 		x.declAddrString(str(1))
 		pm.Msg = &banktypes.MsgSend{FromAddress: str(0), ToAddress: str(1), Amount: parseCoins(a[2])}
+	case "bank.MultiSend":
+		// one input (SDK 0.47 allows exactly one), any number of outputs: from coins to1 coins1 to2 coins2 ...
+		pm.Args = append([]string{}, a...)
+		x.declAddrString(str(0))
+		msg := &banktypes.MsgMultiSend{Inputs: []banktypes.Input{{Address: str(0), Coins: parseCoins(a[1])}}}
+		for i := 2; i+1 < len(a); i += 2 {
+			x.declAddrString(str(i))
+			msg.Outputs = append(msg.Outputs, banktypes.Output{Address: str(i), Coins: parseCoins(a[i+1])})
+		}
+		pm.Msg = msg
 	case "vesting.Create":
 		pm.Args = []string{str(0), str(1), a[2], a[3]}
 		x.declAddrString(str(0))
